@@ -131,11 +131,11 @@ OpHolds(op, p, w) == CASE op = "<"  -> VerCmp(p, w) < 0
                        [] op = ">=" -> VerCmp(p, w) >= 0
                        [] op = ">"  -> VerCmp(p, w) > 0
 
-\* Versions that have a second spelling of equal value ("1.0"/"1.00", "_alpha"/"_alpha0", "-r01")
+\* Versions that have a second spelling of equal value ("1.0"/"1.00", "_alpha"/"_alpha0", "-r0", "-r01")
 \* are the subject of C01 (its own check and findings); C44/C45 keep them out of their domains:
-\* no numeric component / revision with a leading zero (other than "0" itself), suffix numbers
-\* either omitted or without a leading zero.
+\* no numeric component with a leading zero (other than "0" itself), suffix numbers and the
+\* revision either omitted or without a leading zero.
 PlainVer(v) == /\ \A k \in DOMAIN v.nums : Len(v.nums[k]) = 1 \/ v.nums[k][1] # "0"
                /\ \A k \in DOMAIN v.sufs : v.sufs[k].n = <<>> \/ v.sufs[k].n[1] # "0"
-               /\ (v.rev = <<>> \/ Len(v.rev) = 1 \/ v.rev[1] # "0")
+               /\ (v.rev = <<>> \/ v.rev[1] # "0")
 =========================================================================
